@@ -357,6 +357,29 @@ def section_display(serif, out):
                 _d._REPR_ROWS_DEFAULT = saved
         except Exception:
             pass
+        if not vals["reprRowsDefault"] or not vals["reprRowsReset"]:
+            # the global was renamed or split: read both numbers off repr() itself — the number of rows of a long table that
+            # a fresh import shows, and the number shown after set_repr_rows(3); set_repr_rows(None)
+            try:
+                import serif.display as _d
+                from serif import Table
+
+                def shown():
+                    t = Table({"marker": list(range(100000, 100400))})
+                    text = repr(t)
+                    return sum(1 for i in range(100000, 100400) if str(i) in text)
+                first = shown()
+                _d.set_repr_rows(3)
+                _d.set_repr_rows(None)
+                after = shown()
+                if not vals["reprRowsDefault"]:
+                    vals["reprRowsDefault"] = first
+                if not vals["reprRowsReset"]:
+                    vals["reprRowsReset"] = after
+                if first != after:
+                    _d.set_repr_rows(first)
+            except Exception:
+                pass
         out.append("/-- `display._REPR_ROWS_DEFAULT` as assigned at module level -/")
         out.append(f"def reprRowsDefault : Nat := {vals['reprRowsDefault']}")
         out.append("/-- the value `set_repr_rows(None)` resets the global to -/")
